@@ -81,11 +81,21 @@ func mis(ms []*mdl) []*domain.ModelInfo {
 
 // scripted discovery client
 type client struct {
+	mu   sync.Mutex
 	next map[string]func() ([]*domain.ModelInfo, error)
 }
 
+func (c *client) set(u string, f func() ([]*domain.ModelInfo, error)) {
+	c.mu.Lock()
+	c.next[u] = f
+	c.mu.Unlock()
+}
+
 func (c *client) DiscoverModels(ctx context.Context, e *domain.Endpoint) ([]*domain.ModelInfo, error) {
-	return c.next[e.URLString]()
+	c.mu.Lock()
+	f := c.next[e.URLString]
+	c.mu.Unlock()
+	return f()
 }
 func (c *client) HealthCheck(ctx context.Context, e *domain.Endpoint) error { return nil }
 func (c *client) GetMetrics() discovery.DiscoveryMetrics                   { return discovery.DiscoveryMetrics{} }
@@ -257,12 +267,12 @@ func (w *world) apply(o op, forced bool) (ok bool) {
 		ep := *w.eps[o.E]
 		ep.ModelFilter = toFilter(o.Filter)
 		ms := mis(o.Models)
-		w.cl.next[ep.URLString] = func() ([]*domain.ModelInfo, error) {
+		w.cl.set(ep.URLString, func() ([]*domain.ModelInfo, error) {
 			if o.Fail {
 				return nil, errors.New("scripted discovery failure")
 			}
 			return ms, nil
-		}
+		})
 		return w.svc.DiscoverEndpoint(ctx, &ep) == nil
 	case "reg":
 		if forced {
